@@ -28,6 +28,8 @@ def base_discretizer(case):
     cat = [f["name"] for f in case["features"] if f["kind"] == "cat"]
     ordi = [f["name"] for f in case["features"] if f["kind"] == "ord"]
     orders = {f["name"]: GroupedList(decs(f["order"])) for f in case["features"] if f["kind"] == "ord"}
+    orders.update({f["name"]: GroupedList(decs(f["declared"])) for f in case["features"]
+                   if f["kind"] == "cat" and f.get("declared")})
     return Discretizer(quantitative_features=quant, qualitative_features=cat, ordinal_features=ordi,
                        values_orders=orders, min_freq=p["min_freq"], copy=True, verbose=False,
                        **dict(case.get("kwargs") or {}))
